@@ -5,6 +5,7 @@
 package main
 
 import (
+	"verif/harness/suites/dct"
 	"verif/harness/suites/dwt"
 	"verif/harness/suites/j2kblocks"
 	"verif/harness/suites/j2ke2e"
@@ -15,6 +16,7 @@ func main() {
 	s := vhlib.Suites{}
 	j2kblocks.Register(s)
 	dwt.Register(s)
+	dct.Register(s)
 	j2ke2e.Register(s)
 	vhlib.Main(s)
 }
